@@ -358,8 +358,22 @@ class Run:
         self.assumptions = []
         self.notes = {}
         self.rng = random.Random(seed * 1000003 + int(hashlib.sha256(prop.encode()).hexdigest()[:8], 16))
+        self.stage = None         # "T01" ... while an extra stage runs (see in_stage): written into its replays
+
+    @contextlib.contextmanager
+    def in_stage(self, name):
+        """violations registered inside carry "stage": name in their replay object, so that
+        ./check <host> --replay <file> can hand the file to the stage's own replay logic
+        (name: "T0x", or a function of the replay object that returns it)"""
+        old, self.stage = self.stage, name
+        try:
+            yield
+        finally:
+            self.stage = old
 
     def violation(self, what, replay, found_input=True):
+        if self.stage is not None and isinstance(replay, dict) and replay.get("stage") not in STAGE_MODULES:
+            replay = dict(replay, stage=(self.stage(replay) if callable(self.stage) else self.stage))
         self.violations.append((what, replay, found_input))
 
     def known_finding(self, text):
@@ -403,7 +417,7 @@ class Run:
             for idx, (what, replay, found) in enumerate(self.violations[:5]):
                 path = os.path.join(OUT_DIR, "replays", "%s-%s-%d-%d.json" % (self.prop, self.tier, self.seed, idx))
                 with open(path, "w") as f:
-                    json.dump({"property": self.prop, "what": what, "replay": replay}, f, indent=1, ensure_ascii=False)
+                    json.dump({"property": self.prop, "what": what, "found_input": bool(found), "replay": replay}, f, indent=1, ensure_ascii=False)
                 print("VIOLATION property=%s replay=%s%s" % (self.prop, path, "" if found else " no-failing-input-found"))
             return 1
         print("OK property=%s tier=%s evaluations=%d theorems=%d wall=%.1fs" %
@@ -486,3 +500,124 @@ def run_cli(args, cwd=None, fsize_limit=None, timeout=60, stdout_path=None):
         return p.returncode, p.stdout, p.stderr
     except subprocess.TimeoutExpired:
         return -999, "", "timeout"
+
+
+# ---------------------------------------------------------------- replay contract: ./check Cxx --replay <file>
+# (design-notes/BUILDING.md, "Replays").  Every check's replay(run, path) rebuilds the stored case, runs it (and only it)
+# through the evaluation path of the normal run against REPO's current working tree and ends with replay_verdict().
+STAGE_MODULES = {"T01": "t01", "T02": "t02", "T03": "t03", "T04": "t04", "T05": "t05", "T06": "t06", "T07": "t07"}
+_NO_INPUT_PREFIXES = ("correspondence broken", "proof obligation", "assumption audit", "coqchk ", "known finding", "open finding")
+
+
+def replay_load(path):
+    """-> (the whole file, the stored replay object ({} when there is none))"""
+    j = json.load(open(path))
+    if not isinstance(j, dict):
+        return {"content": j}, {}
+    rp = j.get("replay")
+    return j, (rp if isinstance(rp, dict) else {})
+
+
+def replay_print(j, limit=6000):
+    """a file this version cannot interpret (old format): shown, exit 0"""
+    print(json.dumps(j, indent=1, ensure_ascii=False)[:limit])
+    return 0
+
+
+def stored_found_input(j):
+    """kind of the stored violation: True = concrete failing input, False = no-failing-input-found"""
+    if isinstance(j.get("found_input"), bool):
+        return j["found_input"]
+    return not str(j.get("what") or "").startswith(_NO_INPUT_PREFIXES)      # files written before the key existed
+
+
+def stage_of(rp):
+    """the extra stage (T01 ... T07) that wrote this replay object, or None"""
+    s = rp.get("stage")
+    if isinstance(s, str) and s in STAGE_MODULES:
+        return s
+    m = re.match(r"^(T0[1-7])_corr\.", str(rp.get("correspondence") or ""))      # files written before the key existed
+    if m:
+        return m.group(1)
+    w = rp.get("world")
+    if isinstance(w, dict) and "journal" in w and "mode" in w and "config_file" in rp:      # a world of the whole-run stage
+        return "T06"
+    return None
+
+
+def replay_verdict(run, path, j, why_ok, only=None):
+    """last step of every replay(): run.violations holds what the re-execution of the stored case registered.
+    Failure seen again -> 'VIOLATION property=<run.prop> replay=<path>[ no-failing-input-found]', exit 1 (the suffix iff the
+    stored violation was of that kind); otherwise 'REPLAY-OK property=<run.prop> <why_ok>', exit 0."""
+    vs = [v for v in run.violations if only is None or only(v)]
+    for what, rep, found in vs[:5]:
+        print("REPRODUCED: %s%s" % (what, "" if found else " (no failing input: correspondence / proof only)"))
+    for k in run.known:
+        print("KNOWN-FINDING: property=%s %s" % (run.prop, k))
+    if vs:
+        stored = stored_found_input(j)
+        if any(v[2] == stored for v in vs):
+            found = stored
+        else:
+            found = vs[0][2]
+            print("note: the stored violation was %s, the failure seen now is %s" %
+                  (("a concrete failing input" if stored else "of the no-failing-input kind"),
+                   ("a concrete failing input" if found else "of the no-failing-input kind")))
+        print("VIOLATION property=%s replay=%s%s" % (run.prop, path, "" if found else " no-failing-input-found"))
+        return 1
+    print("REPLAY-OK property=%s %s" % (run.prop, " ".join(str(why_ok).split())))
+    return 0
+
+
+def replay_theorem(run, path, j, rp):
+    """replays that name a theorem file instead of an input: the proof stage of that file is run again"""
+    names = [os.path.basename(x.strip()) for x in str(rp.get("theorem_file")).split(",")]
+    names = [x[:-2] if x.endswith(".v") else x for x in names]
+    if not names or not all(re.match(r"^[A-Za-z0-9_]+$", x) and os.path.exists(os.path.join(COQ, "props", x + ".v")) for x in names):
+        return replay_print(j)
+    print(j.get("what"))
+    for name in names:
+        _replay_one_theorem_file(run, name)
+    return replay_verdict(run, path, j, "%s: builds and the assumption audit is clean" % ", ".join("coq/props/%s.v" % x for x in names))
+
+
+def _replay_one_theorem_file(run, name):
+    if name == run.prop:
+        proof_stage(run, name)
+    else:
+        ok, log = coq_make(["props/%s.vo" % name])
+        if not ok:
+            run.violation("proof obligation does not check: props/%s.v failed to build" % name,
+                          {"theorem_file": "coq/props/%s.v" % name, "log": log[-2000:]}, found_input=False)
+        else:
+            info = coq_props(name)
+            bad = coq_scan_forbidden()
+            closed_ok = info["ok"] and info.get("n_print", 0) >= 1 and info["closed"] == info.get("n_print", -1) \
+                and info.get("n_print", 0) >= len(info["theorems"]) and not info["axioms"] and not bad
+            if not closed_ok:
+                run.violation("assumption audit failed for props/%s.v" % name,
+                              {"theorem_file": "coq/props/%s.v" % name, "axioms": info.get("axioms"), "forbidden": bad,
+                               "closed": info.get("closed"), "n_print": info.get("n_print"), "log": info.get("log", "")[-1500:]}, found_input=False)
+
+
+def replay_begin(run, path):
+    """head of every host check's replay(): -> (j, rp, rc).  rc is not None when the file was dealt with here:
+    a replay written by an extra stage goes to the stage module's replay (it reports under run.prop = the host),
+    a replay naming a theorem file re-runs that proof stage, a file without replay object is printed."""
+    j, rp = replay_load(path)
+    st = stage_of(rp)
+    if st is not None:
+        import importlib
+        return j, rp, importlib.import_module(STAGE_MODULES[st]).replay(run, path)
+    if not rp:
+        return j, rp, replay_print(j)
+    if "theorem_file" in rp and not any(k in rp for k in ("case", "world", "journal", "finding")):
+        return j, rp, replay_theorem(run, path, j, rp)
+    return j, rp, None
+
+
+def corr_build(prop):
+    """the Coq side a replay needs (the normal run gets it from proof_stage)"""
+    ok, log = coq_make(["corr/%s_corr.vo" % prop])
+    if not ok:
+        raise Infra("coq build of corr/%s_corr.vo failed:\n%s" % (prop, log[-2000:]))
